@@ -34,11 +34,13 @@ RULE = ('cases = (recording, configuration) x runs (nprocesses, executor, task o
         'the boundaries of the schedule: ns = P*NBATCH (+0, 1, P-1), CHUNK_SIZE a multiple of NBATCH, a worker stop rule hit with equality, '
         'shortest / just complete last batch, single batch down to ns = SAMPLES_TAPER, NBATCH barely above two tapers.  Every recording is run '
         'with 1 worker and with the largest admissible worker count (ns >= P*NBATCH, P <= 8) and others in between, x {append to a first '
-        'run, ns2add, k-filter or CAR, whitening scalar / matrix, nc_out without sync, .cbin input, channel rejection (thorough)}.  Runs use '
+        'run, ns2add, k-filter or CAR, whitening none / scalar / identity / dense / penta-diagonal, per-channel AP gains uniform / two halves / '
+        'all mixed (imro table), nc_out without sync, .cbin input, channel rejection (thorough)}.  Runs use '
         'the real function; joblib.Parallel is replaced by a sequential stand-in that executes the tasks in a seeded order and records every '
         'seek / tofile (most runs) or is the real thread / process back-end.  Compared per run: byte ranges written in the output / RMS / '
         'timestamp files vs the model, output bytes vs recomposition from the model\'s row provenance (P = 1), and the property observables '
-        '(size, sync column = source, bytes = 1-worker bytes, prefix kept when appending, QC shapes and contents).  A second family covers the '
+        '(size, sync column = source, bytes = 1-worker bytes, prefix kept when appending, QC shapes and contents, and for matrix whitening '
+        'out(wrot=W) = out(wrot=None) @ W within the truncation tolerance).  A second family covers the '
         'excluded class ns < nprocesses*NBATCH (finding F14), where ONLY model = code is compared (which worker writes which byte ranges, which '
         'crashes, resulting bytes in task order).  Non-trivial = at least 2 batches or 2 workers; distinct by (recording, configuration, P, executor, order, op)')
 ASSUMPTIONS = [
@@ -51,7 +53,11 @@ ASSUMPTIONS = [
     'QC reading of the statement: the saturation vector has one entry per sample of the recording of THIS call (append replaces the file, it does not '
     'extend it); RMS / timestamp files have one row per batch of every run appended so far',
     'padding: the statement fixes only the number of rows; the model (and the recomposition) use what the code does, ns2add copies of the last row',
-    'recomposition compares voltage columns within 1 int16 LSB (bit-exact on the unchanged tree, reported in the notes) and the sync column exactly',
+    'recomposition compares voltage columns within 1 int16 LSB (bit-exact on the unchanged tree, reported in the notes) and the sync column exactly; '
+    'it is a harness-level oracle (the Lean model places rows, it does not compute values) in the documented order: destripe batch, x mute on the '
+    'voltage columns, / sample2volts per channel, whitening, astype(int16)',
+    'whitening relation out(wrot=W)[:, :ncv] = out(wrot=None)[:, :ncv] @ W is demanded up to sum_i |W[i, j]| + 1 counts per output channel j '
+    '(both files are truncated to integers)',
     'writes of different processes to overlapping byte ranges are applied by the OS in some order; the theorem shows they carry identical bytes, torn '
     'writes therefore do not matter (not observed, not modelled)',
 ]
@@ -92,12 +98,28 @@ def _src_dir():
 _META_CACHE = {}
 
 
-def _meta_text(ns):
+NP1_AP_GAINS = (50, 125, 250, 500, 1000, 1500, 2000, 3000)
+
+
+def _gains(kind, seed):
+    """per-channel AP gains written into the imro table: None = the fixture's uniform 500; 'halves' = 500 on channels
+    0..191 and 250 on 192..383; 'mixed' = every channel its own gain out of the NP1 gain set (a per-channel SpikeGLX setting)"""
+    if not kind or kind == 'uniform':
+        return None
+    if kind == 'halves':
+        return [500] * (NCV // 2) + [250] * (NCV - NCV // 2)
+    rng = np.random.default_rng([int(seed), 4242])
+    return [int(g) for g in rng.choice(NP1_AP_GAINS, NCV)]
+
+
+def _meta_text(ns, gains=None):
     fix = _src_dir() / 'tests' / 'fixtures' / 'sample3B_g0_t0.imec1.ap.meta'
     if 'lines' not in _META_CACHE:
         _META_CACHE['lines'] = fix.read_text().splitlines()
     out = []
     for l in _META_CACHE['lines']:
+        if l.startswith('~imroTbl') and gains is not None:
+            l = '~imroTbl=(0,384)' + ''.join(f'({i} 0 0 {int(g)} 250 1)' for i, g in enumerate(gains))
         if l.startswith('fileSizeBytes'):
             l = f'fileSizeBytes={ns * NC * 2}'
         elif l.startswith('fileTimeSecs'):
@@ -108,7 +130,7 @@ def _meta_text(ns):
     return '\n'.join(out) + '\n'
 
 
-def make_recording(d, stem, ns, seed, sat=(), cbin=False, faulty=False):
+def make_recording(d, stem, ns, seed, sat=(), cbin=False, faulty=False, gains=None):
     """385-channel int16 recording: noise + common-mode stripes + local spikes + saturated stretches + random sync words."""
     rng = np.random.default_rng([int(seed), int(ns), 606])
     D = (rng.standard_normal((ns, NC)) * 12).astype(np.int16)
@@ -140,7 +162,7 @@ def make_recording(d, stem, ns, seed, sat=(), cbin=False, faulty=False):
     d = Path(d)
     binf = d / f'{stem}.ap.bin'
     D.tofile(binf)
-    (d / f'{stem}.ap.meta').write_text(_meta_text(ns))
+    (d / f'{stem}.ap.meta').write_text(_meta_text(ns, _gains(gains, seed)))
     if cbin:
         import spikeglx
         import contextlib
@@ -291,12 +313,40 @@ def _wrot(kind, seed):
         return None
     if kind == 'scalar':
         return 0.5
-    rng = np.random.default_rng([int(seed), 77])
-    return (np.eye(NCV) * 0.8 + rng.standard_normal((NCV, NCV)) * 0.01)
+    if kind == 'identity':
+        return np.identity(NCV)
+    if kind == 'penta':      # local whitening: every channel coupled to its two neighbours on either side
+        w = np.eye(NCV) * 1.1
+        for k, v in ((1, -0.3), (2, -0.1)):
+            w += np.eye(NCV, k=k) * v + np.eye(NCV, k=-k) * v
+        return w
+    rng = np.random.default_rng([int(seed), 77])     # 'matrix': dense
+    return (np.eye(NCV) * 0.8 + rng.standard_normal((NCV, NCV)) * 0.02)
+
+
+MATRIX_WROT = ('identity', 'matrix', 'penta')
+
+
+def whitening_relation(rows_w, rows_0, W, ncv):
+    """out(wrot=W)[:, :ncv] against out(wrot=None)[:, :ncv] @ W.  Both files are truncated to integers, so each of the
+    terms of the product may be off by less than one count, plus one for the final truncation: tolerance per output
+    column j = sum_i |W[i, j]| + 1.  Returns None when it holds, else a description."""
+    a = rows_w[:, :ncv].astype(np.float64)
+    b = rows_0[:, :ncv].astype(np.float64) @ W
+    tol = np.abs(W).sum(axis=0) + 1.0
+    exc = np.abs(a - b) - tol[np.newaxis, :]
+    if exc.max() <= 0:
+        return None
+    t, c = np.unravel_index(int(np.argmax(exc)), exc.shape)
+    return (f'out(wrot=W) != out(wrot=None) @ W: sample {int(t)} channel {int(c)}: {a[t, c]:.0f} instead of {b[t, c]:.1f} '
+            f'(tolerance {tol[c]:.1f} counts); {int((exc > 0).sum())} entries outside the tolerance')
 
 
 class BatchProcessor:
-    """In-memory destriping of one batch `_sr[f:l]` with the real pieces, the way the documentation of the function
+    """HARNESS-LEVEL ORACLE (the Lean model describes where rows go, not their values).  Documented order of the
+    per-batch transform: destripe the batch -> x saturation mute on the voltage columns -> / sample2volts PER CHANNEL
+    (back to integer units) -> whitening `wrot` ("to apply to the output") -> astype(int16).
+    In-memory destriping of one batch `_sr[f:l]` with the real pieces, the way the documentation of the function
     describes it (cosine taper of SAMPLES_TAPER samples at both ends, high-pass, ADC shift, spatial filter, sync
     re-attached, saturation mute on the voltage columns, scaling back to integers, optional whitening)."""
 
@@ -533,17 +583,18 @@ def run_case(payload):
         nc_out = case.get('nc_out') or NC
         rb = nc_out * 2
         src, D = make_recording(tmp, 'rec', ns, seed, sat=case.get('sat', ()), cbin=bool(case.get('cbin')),
-                                faulty=bool(case.get('reject')))
+                                faulty=bool(case.get('reject')), gains=case.get('gains'))
         kw = _kw(case)
         base = {k: case[k] for k in ('ns', 'N', 'seed', 'kfilter', 'wrot', 'ns2add') if k in case}
-        for k in ('nc_out', 'cbin', 'reject'):
+        for k in ('nc_out', 'cbin', 'reject', 'gains'):
             if case.get(k):
                 base[k] = case[k]
         if case.get('append'):
             base['append'] = case['append']
         ctag = ('kfilt' if case['kfilter'] else 'car', 'wrot=' + case['wrot'], 'ns2add>0' if case['ns2add'] else 'ns2add=0',
                 'append' if case.get('append') else 'fresh', 'cbin' if case.get('cbin') else 'bin',
-                'reject' if case.get('reject') else 'noreject', 'nc_out=' + str(nc_out), 'kind=' + case.get('kind', '?'))
+                'reject' if case.get('reject') else 'noreject', 'nc_out=' + str(nc_out), 'kind=' + case.get('kind', '?'),
+                'gains=' + (case.get('gains') or 'uniform'))
         offs = _offsets(case, T)
         # state to append to
         pre_dir, pre = None, None
@@ -569,6 +620,7 @@ def run_case(payload):
         bp = BatchProcessor(src, N, T, k_filter=kw['k_filter'], wrot=kw.get('wrot'), nc_out=case.get('nc_out'),
                             reject=bool(case.get('reject')))
         ref_bytes = None       # output of the first in-domain run (P = 1 by construction of the generator)
+        ref_rows = None
         ref_qc = None
         for ri, (P, mode, order) in enumerate(case['runs']):
             mk = f'{P}'
@@ -633,6 +685,8 @@ def run_case(payload):
             h = hashlib.sha1(got.tobytes()).hexdigest()
             if ref_bytes is None:
                 ref_bytes, ref_qc, ref_P = h, out, P
+                if len(got) == len(prefix) + (ns + case['ns2add']) * rb:
+                    ref_rows = got[len(prefix):].view(np.int16).reshape(-1, nc_out).copy()
             exp_size = len(prefix) + (ns + case['ns2add']) * rb
             obs, want = {}, {}
             obs['size'], want['size'] = len(got), exp_size
@@ -655,6 +709,20 @@ def run_case(payload):
                 want['qc_prefix'] = True
             recs.append(dict(op='observe', desc={**desc, 'op': 'observe'}, impl=obs, model=want, nontrivial=nontriv,
                              tags=rtags + ('observe',)))
+        # -- (4) whitening is applied to the OUTPUT (integer units): out(W) = out(None) @ W up to the truncations
+        if case['wrot'] in MATRIX_WROT and ref_rows is not None and not case.get('f14'):
+            d = fresh_dir('nowrot', False)
+            kw0 = {k: v for k, v in kw.items() if k != 'wrot'}
+            r0 = run_destripe(src, d, N, 1, mode='seq', **kw0)
+            o0 = read_outputs(d)
+            shutil.rmtree(d, ignore_errors=True)
+            if r0['error'] or o0['bytes'] is None or len(o0['bytes']) != (ns + case['ns2add']) * rb:
+                impl_s = f'run without wrot: {r0["error"]}'
+            else:
+                rel = whitening_relation(ref_rows[:ns], o0['bytes'].view(np.int16).reshape(-1, nc_out)[:ns], kw['wrot'], NCV)
+                impl_s = 'holds' if rel is None else rel
+            recs.append(dict(op='whitening_relation', desc={**base, 'op': 'whitening_relation'}, impl=impl_s, model='holds',
+                             nontrivial=True, tags=ctag + ('whitening_relation',)))
         bp.close()
     except Exception as e:      # noqa
         recs.append(dict(op='harness', desc={'case': case, 'op': 'harness'}, impl=f'{type(e).__name__}: {e}',
@@ -681,9 +749,9 @@ def _sat_positions(rng, ns, N, T, P):
 def _cost(case):
     """rough number of (sample x 385 channel) rows pushed through the pipeline, in CAR units"""
     N, ns = case['N'], case['ns']
-    f = (2.5 if case['kfilter'] else 1.0) + (0.5 if case['wrot'] == 'matrix' else 0.0)
+    f = (2.5 if case['kfilter'] else 1.0) + (0.5 if case['wrot'] in MATRIX_WROT else 0.0)
     B = _nwin(ns, N, 1024) if N > 2048 else 1
-    c = B * N * f * len(case['runs']) + min(B, case.get('recomp', B)) * N * f
+    c = B * N * f * (len(case['runs']) + (1 if case['wrot'] in MATRIX_WROT else 0)) + min(B, case.get('recomp', B)) * N * f
     if case.get('append'):
         a = case['append']
         c += _nwin(a['ns'], a['N'], 1024) * a['N'] * f
@@ -742,7 +810,9 @@ def _in_domain_case(rng, T, kind, Pt, quick):
         ns = int(rng.integers(Pt * N, Pt * N + 2 * N))
     ns = int(ns)
     case = {'ns': ns, 'N': int(N), 'seed': int(rng.integers(0, 2 ** 31)), 'kind': kind,
-            'kfilter': int(rng.random() < 0.25), 'wrot': str(rng.choice(['none', 'none', 'scalar', 'matrix'])),
+            'kfilter': int(rng.random() < 0.25),
+            'wrot': str(rng.choice(['none', 'scalar', 'identity', 'matrix', 'penta'], p=[.3, .15, .1, .2, .25])),
+            'gains': str(rng.choice(['uniform', 'halves', 'mixed'], p=[.35, .3, .35])),
             'ns2add': int(rng.choice([0, 0, 1, 7, 137]))}
     case['sat'] = _sat_positions(rng, ns, N, T, Pt)
     if rng.random() < 0.3:
@@ -783,6 +853,9 @@ def gen_cases(ctx):
             for attempt in range(12):
                 cand = _in_domain_case(rng, T, kind, Pt, ctx.quick)
                 cand['recomp'] = ctx.n(6, 20)
+                if ci % 3 == 0:     # a fixed share of non-diagonal whitening on recordings with non-uniform gains
+                    cand['wrot'] = ['penta', 'matrix'][(ci // 3) % 2]
+                    cand['gains'] = ['halves', 'mixed'][(ci // 3 + ci // 6) % 2]
                 # fit the budget: fewer runs first (always keep P = 1 and the largest P), then the cheaper spatial filter
                 while _cost(cand) > budget and len(cand['runs']) > 2:
                     cand['runs'].pop()
@@ -914,7 +987,7 @@ def _oracle_desc():
 
 def oracle(inp):
     """Returns None when the property holds on this input, else a description of what fails.
-    inp: ns, N, P, seed, T, kfilter, wrot, ns2add, sat, append (None or {ns, N, P, ns2add}), nc_out (None or int)."""
+    inp: ns, N, P, seed, T, kfilter, wrot, gains, ns2add, sat, append (None or {ns, N, P, ns2add}), nc_out (None or int)."""
     _limit_threads()
     from ibldsp.utils import WindowGenerator
     ns, N, P, T = int(inp['ns']), int(inp['N']), int(inp['P']), int(inp.get('T', 1024))
@@ -927,7 +1000,7 @@ def oracle(inp):
     rb = nc_out * 2
     tmp = Path(tempfile.mkdtemp(prefix='c06o_'))
     try:
-        src, D = make_recording(tmp, 'rec', ns, case['seed'], sat=inp.get('sat') or ())
+        src, D = make_recording(tmp, 'rec', ns, case['seed'], sat=inp.get('sat') or (), gains=inp.get('gains'))
         # 1 worker, fresh file: the reference of "independent of the worker count"
         d1 = tmp / 'p1'; d1.mkdir()
         r = run_destripe(src, d1, N, 1, mode='seq', **kw)
@@ -958,9 +1031,19 @@ def oracle(inp):
             exact, mx, sync_eq = _diff_rows(rows1[fv:lv], exp, min(NCV, nc_out))
             if mx is None or mx > 1 or not sync_eq:
                 bp.close()
-                return (f'1 worker: rows [{fv}, {lv}) differ from in-memory destriping of batch [{f}, {l}) '
-                        f'(max difference {mx} LSB, sync equal: {sync_eq})')
+                return (f'1 worker: rows [{fv}, {lv}) differ from in-memory destriping of batch [{f}, {l}) in the documented order '
+                        f'(destripe, mute, / sample2volts per channel, whitening, int16): max difference {mx} LSB, sync equal: {sync_eq}')
         bp.close()
+        # the whitening matrix is applied to the output: out(W) = out(None) @ W up to the integer truncations
+        if case['wrot'] in MATRIX_WROT:
+            d0 = tmp / 'p1_nowrot'; d0.mkdir()
+            r = run_destripe(src, d0, N, 1, mode='seq', **{k: v for k, v in kw.items() if k != 'wrot'})
+            if r['error']:
+                return f'1 worker without wrot: raised {r["error"]}'
+            rows0 = read_outputs(d0)['bytes'].view(np.int16).reshape(-1, nc_out)
+            rel = whitening_relation(rows1[:ns], rows0[:ns], kw['wrot'], NCV)
+            if rel:
+                return '1 worker: ' + rel
         # P workers, two task orders, optionally appended to a first run
         pre = None
         if inp.get('append'):
@@ -1017,7 +1100,8 @@ def _oracle_safe(inp):
 
 def _size(inp):
     return (inp['ns'], inp['P'], int(bool(inp.get('append'))) + int(bool(inp.get('ns2add'))) + int(inp.get('wrot', 'none') != 'none')
-            + int(bool(inp.get('kfilter'))) + int(bool(inp.get('sat'))) + int(bool(inp.get('nc_out'))))
+            + int(bool(inp.get('kfilter'))) + int(bool(inp.get('sat'))) + int(bool(inp.get('nc_out')))
+            + int((inp.get('gains') or 'uniform') != 'uniform'))
 
 
 def _grid(T):
@@ -1025,11 +1109,13 @@ def _grid(T):
     N1, N2, N3 = _smooth(2 * T + 512), _smooth(3 * T), _smooth(4 * T)
 
     def mk(ns, N, P, **k):
-        d = {'ns': ns, 'N': N, 'P': P, 'seed': 11, 'T': T, 'kfilter': 0, 'wrot': 'none', 'ns2add': 0, 'sat': [], 'append': None, 'nc_out': None}
+        d = {'ns': ns, 'N': N, 'P': P, 'seed': 11, 'T': T, 'kfilter': 0, 'wrot': 'none', 'gains': 'uniform', 'ns2add': 0, 'sat': [], 'append': None, 'nc_out': None}
         d.update(k)
         return d
     g.append(mk(2 * N1, N1, 2))
     g.append(mk(T, N2, 1))
+    g.append(mk(T, N2, 1, wrot='penta', gains='halves'))
+    g.append(mk(2 * N1, N1, 2, wrot='matrix', gains='mixed'))
     g.append(mk(N1 + (N1 - 2 * T) + 1, N1, 1, ns2add=5, sat=[[N1 - T - 20, 50]]))
     g.append(mk(2 * N1 + 1, N1, 2, ns2add=3, sat=[[N1 - 30, 40], [2 * N1 - 20, 30]], append={'ns': N1, 'N': N1, 'P': 1, 'ns2add': 0}))
     g.append(mk(3 * N2 + 1, N2, 3, wrot='scalar', sat=[[N2, 25]]))
@@ -1048,7 +1134,7 @@ def _inputs_from_mismatches(ctx, T):
             continue
         P = int(c.get('P', 1))
         inp = {'ns': int(c['ns']), 'N': int(c['N']), 'P': P, 'seed': int(c.get('seed', 0)), 'T': T, 'kfilter': int(c.get('kfilter', 0)),
-               'wrot': c.get('wrot', 'none'), 'ns2add': int(c.get('ns2add', 0)), 'sat': c.get('sat') or [],
+               'wrot': c.get('wrot', 'none'), 'gains': c.get('gains') or 'uniform', 'ns2add': int(c.get('ns2add', 0)), 'sat': c.get('sat') or [],
                'append': c.get('append'), 'nc_out': c.get('nc_out')}
         if inp['ns'] < P * inp['N'] and not (P == 1 and inp['ns'] >= T):
             continue
@@ -1079,7 +1165,7 @@ def search(ctx, reasons):
         # shrink: drop options one at a time, then fewer workers
         for _ in range(2):
             trials = []
-            for k, v in (('append', None), ('ns2add', 0), ('wrot', 'none'), ('kfilter', 0), ('sat', []), ('nc_out', None)):
+            for k, v in (('append', None), ('ns2add', 0), ('wrot', 'none'), ('kfilter', 0), ('sat', []), ('nc_out', None), ('gains', 'uniform')):
                 if inp.get(k) not in (v, None, 0, 'none', []):
                     trials.append({**inp, k: v})
             if inp['P'] > 2:
